@@ -80,7 +80,7 @@ def run(prop, tier, replay=None):
         # 2. scenarios
         scenarios = fs.tlc_scenarios(work, ntlc, seed) + fs.gen_scenarios(seed, ngen) + fs.input_scenarios(seed, max(30, ngen // 4))
         scenarios = fs.decorate_all(scenarios, seed)
-        scenarios += fs.flood_scenarios(seed, ("resume",) if tier == "quick" else ("resume", "fail"))
+        scenarios += fs.flood_scenarios(seed, ("resume", "lonely-fail") if tier == "quick" else ("resume", "fail", "lonely-fail", "lonely-resume", "pair-fail"))
     # 3. the real spyServer
     lines, wall = fs.replay(work, scenarios, prop, probes=probes)
     by_t = {}
